@@ -140,7 +140,7 @@ func Worker(shard, n int, tier string) *engine.Result {
 		if i%n != shard {
 			continue
 		}
-		if only := os.Getenv("VERIF_ONLY"); only != "" && only != p.desc {
+		if engine.SkipScenario(p.desc) {
 			continue
 		}
 		_, ref, wa := f.RunReference(p.Plan, tmpl)
